@@ -141,11 +141,19 @@ def readapi_spec(ctx: Ctx, rep: Report) -> None:
             f'self._dag[point][{slot}]', key='slot',
         )
         # region form: neighbours outside the region only
-        t = norm(f.node)
+        g = ctx.cfg(f)
+        adds = [n for n in g.nodes if q.has_call(
+            f'{name}_points.add', [name])(n)]
+        ok = len(adds) == 1
+        if ok:
+            gd = {(norm(t.stmt.iter if t.kind == 'for' else t.stmt.test),
+                   lab) for t, lab in g.guards_of(adds[0].id)}
+            ok = (f'self.{name}(p)', 'iter') in gd and (
+                (f'{name} not in points', 'true') in gd
+                or (f'{name} in points', 'false') in gd)
         rep.count()
         rep.check(
-            f'for {name} in self.{name}(p): if {name} not in points: '
-            f'{name}_points.add({name})' in t, R, f'Circuit.{name}:region',
+            ok, R, f'Circuit.{name}:region',
             f.path, f.lineno,
             'for a region: neighbours of its operations that are not '
             'themselves in the region',
@@ -239,14 +247,14 @@ def insert_spec(ctx: Ctx, rep: Report) -> None:
     g = ctx.cfg(f)
     rep.seen(f.qualname)
     occ = [t for t in g.nodes if t.kind == 'test' and norm(
-        t.stmt.test) == 'not self.is_cycle_unoccupied(cycle_index, '
+        t.stmt.test) == 'self.is_cycle_unoccupied(cycle_index, '
         'op.location)']
     ins = [n for n in g.nodes if q.has_call('self._insert_cycle',
                                             ['cycle_index'])(n)]
     rep.count(4)
     rep.check(
         len(occ) == 1 and len(ins) == 1 and g.edge_dominates(
-            occ[0].id, 'true', ins[0].id), I, 'Circuit.insert:open',
+            occ[0].id, 'false', ins[0].id), I, 'Circuit.insert:open',
         f.path, f.lineno,
         'a new cycle is opened at the index exactly when the slot is '
         'occupied',
